@@ -78,7 +78,7 @@ pub fn check_contract(recs: &[Rec], tr: u8, owner: usize, independent: bool) -> 
                         }
                         ready_credit = false;
                         streak = 0;
-                        if matches!(res, IoRes::Err) && matches!(sent, Some(crate::sim::hist::Msg::Cancel { .. })) {
+                        if matches!(res, IoRes::Err) && matches!(sent, Some(crate::sim::hist::Msg::Cancel { .. }) | Some(crate::sim::hist::Msg::Response { .. })) {
                             connection_over = true;
                         }
                         if matches!(res, IoRes::Ok) {
